@@ -591,7 +591,8 @@ def mutants(prog, rnd, per_op):
 
 
 # ---- a family that exercises the typing forms the other families lack ---------------------------------
-def typing_programs():
+def typing_programs(ill=False):
+    """the typing forms; ill=True adds the forms the rules refuse (only C03, which asks HmsTypes for the verdict, wants those)"""
     progs = []
 
     def add(name, fns, globs=(), **feats):
@@ -730,6 +731,21 @@ def typing_programs():
         globs=[("cnt", I(0)), ("names", List(S("a"))), ("conf", Obj(depth=I(2), tag=S("t"))), ("ratio", Bin("/", F(1, 0), F(2, 0))), ("limit", Un("-", I(5)))])
     add("spawn", {"work": Fn(["a", "l"], Block([Print(V("a"), V("l"))], Bin("+", V("a"), I(1))), "int", ["int", "[int]"]),
                   "main": Fn([], Block([Let("h", Spawn("work", I(1), List(I(2)))), Let("r", MCall(V("h"), "join")), Print(Bin("+", V("r"), I(1)))]))}, vm_only=True)
+    # what crosses to another thread: data at any depth, a function value at no depth
+    FT = "fn(a: int) -> int"
+    for tag, pt, arg in (("plain", FT, V("twice")), ("in_list", "[%s]" % FT, List(V("twice"))), ("in_object", "{ f: %s }" % FT, Obj(f=V("twice"))),
+                         ("in_option", "?%s" % FT, Un("?", V("twice"))), ("in_list_of_objects", "[{ f: %s, n: int }]" % FT, List(Obj(f=V("twice"), n=I(1)))),
+                         ("literal_in_list", "[%s]" % FT, List(FnLit(["a"], Block([], Bin("+", V("a"), I(1))), "int"))),
+                         ("data_deep", "[{ l: [int], o: ?str }]", List(Obj(l=List(I(1)), o=Un("?", S("s")))))):
+        for how in ("spawn", "call"):
+            add("thread_arg_%s_%s" % (tag, how),
+                {"twice": Fn(["a"], Block([], Bin("*", V("a"), I(2))), "int"),
+                 "work": Fn(["x", "n"], Block([Print(V("n"))], Bin("+", V("n"), I(1))), "int", [pt, "int"]),
+                 "main": Fn([], Block([Let("h", Spawn("work", arg, I(1))), Print(MCall(V("h"), "join"))] if how == "spawn" else
+                                      [Print(Call("work", arg, I(1)))]))}, vm_only=True,
+                **({"refused": True} if how == "spawn" and tag != "data_deep" else {}))
     add("shadow_types", main(Let("x", I(1)), Print(Bin("+", V("x"), I(1))), Let("x", S("s")), Print(Bin("+", V("x"), S("t"))),
                              Expr(Block([Let("x", List(B(True))), Print(Idx(V("x"), I(0)))])), Print(MCall(V("x"), "len"))))
+    if not ill:
+        progs = [p for p in progs if not p["feats"].get("refused")]
     return progs
